@@ -15,7 +15,7 @@ os.chdir(VERIF)
 seed = sys.argv[1] if len(sys.argv) > 1 else "1"
 flt = sys.argv[2] if len(sys.argv) > 2 else ""
 CHECKS = {
-    "C01-if-branch-condsyms": ["C02", "C01"], "C02-stale-alias": ["C02", "C01"], "C03-or-sum": ["C03", "C01"], "C04-acyclic-validfrom": ["C04"],
+    "C01-if-branch-condsyms": ["C02", "C01"], "C01-summation-start": ["C01", "C04"], "C02-stale-alias": ["C02", "C01"], "C03-or-sum": ["C03", "C01"], "C04-acyclic-validfrom": ["C04"],
     "C05-typer-failed-unchanged": ["C05", "C01"], "C06-sorted-bases": ["C06", "C07"], "C07-minus-one-shortcut": ["C07", "C16", "C06"],
     "C08-uniform-parens": ["C08"], "C11-cornish-weight": ["C11"], "C13-zero-frequency-factor": ["C13"], "C16-kernel-pivot": ["C16"],
     "C17-finiterange-upper": ["C17"], "C18-typer-combination-bound": ["C18", "C01"], "C19-remainder-unparenthesised": ["C19", "C01"],
